@@ -415,8 +415,11 @@ func transformUnion(source, target *expr.AttributeExpr, sourceVar, targetVar str
 		targetTypeNames[i] = ta.TargetCtx.Scope.Name(tt.Attribute, ta.TargetCtx.Pkg(tt.Attribute), ta.TargetCtx.Pointer, ta.TargetCtx.Pointer)
 	}
 
-	// Need to type assert targetVar before assigning field values.
+	// Need to type assert targetVar before assigning field values of the
+	// union values (and only those: restore the flag afterwards).
+	isInterface := ta.TargetCtx.IsInterface
 	ta.TargetCtx.IsInterface = true
+	defer func() { ta.TargetCtx.IsInterface = isInterface }()
 
 	data := map[string]any{
 		"SourceTypeRefs": sourceTypeRefs,
